@@ -17,7 +17,7 @@ FAMS = {
     "C08": (["order", "retry", "poll"], ["order", "retry", "poll", "tolerance", "gates"]),
     "C09": (["crash", "crash2"], ["crash", "crash2", "crashchk", "crashchkfn"]),
     "C10": (["crashfn", "crashchkfn", "crash"], ["crash", "crashfn", "crash2", "crash2fn", "crashchk", "crashchkfn", "livecrash"]),
-    "C11": ([], []),
+    "C11": (["aged1"], ["aged1", "aged", "aged2"]),
     "C12": ([], []),
 }
 # property -> shape families used for scenario generation
@@ -112,9 +112,18 @@ def _conf_one(args):
     key, trace, keep = args
     d = vlib.scratch("conf")
     vlib.copy_specs(d, ["Props.tla", "Engine.tla", "EngineConf.tla", "EngineConf.cfg"])
+    if len(trace) > 2 and trace[1]["ev"] == "Crash":
+        # NewProc is the harness's own marker, written when coercion.New has returned; recovery starts inside New, so
+        # its first events may be recorded before the marker: the marker belongs right behind the Crash line
+        np = [e for e in trace[2:] if e["ev"] == "NewProc"][:1]
+        trace = trace[:2] + np + [e for e in trace[2:] if not (np and e is np[0])]
     with open(os.path.join(d, "trace.ndjson"), "w") as f:
         for e in trace:
-            f.write(json.dumps({x: y for x, y in e.items() if x != "_c"}, separators=(",", ":")) + "\n")
+            e2 = {x: y for x, y in e.items() if x != "_c"}
+            if e2["ev"] == "Crash":
+                # the model keeps attempts as a sequence of outcome letters: the digest string, letter by letter
+                e2["snap"] = [dict(row, atts=([] if row["dig"] == "-" else list(row["dig"]))) for row in e2["snap"]]
+            f.write(json.dumps(e2, separators=(",", ":")) + "\n")
     r = vlib.run_tlc(d, "EngineConf.tla", "EngineConf.cfg", workers=1, timeout=180, deque=True, xmx="1g", light=True)
     cj = None
     p = os.path.join(d, "conf.json")
@@ -134,9 +143,13 @@ def _conf_one(args):
 
 def conformable(trace):
     cfg = trace[0]
-    if cfg.get("mode") in ("api", "resume", "crash") or "mshape" not in cfg:
+    if cfg.get("mode") == "api" or "mshape" not in cfg:
         return False
-    for e in trace:
+    if cfg.get("mode") in ("crash", "resume") and (len(trace) < 2 or trace[1]["ev"] != "Crash" or not trace[1].get("recovery", True)):
+        return False
+    for i, e in enumerate(trace):
+        if e["ev"] == "Crash" and i == 1:
+            continue
         if e["ev"] in ("Crash", "Hang", "ProcDied", "HoldTimeout", "WFail", "Exit") or (e["ev"] == "PStart" and e.get("ov")) or (e["ev"] == "PEnd" and e.get("out") == "overrun"):
             return False
     return True
